@@ -445,8 +445,11 @@ Definition check_C15 (c : case) : Z :=
       let spec := if n <? NANOS_PER_DAY then tm_is out n 0 else is_oor out in
       verdict (obs_eqb (obs_tm (time_from_nanos n)) out) (err_excludes_value out && spec)
   | (Op_offset_from_seconds | Op_offset_from_hms), _ =>
-      let v := check_C10 c in if v =? 0 then verdict true (err_excludes_value out) else v
+      let v := check_C10 c in let s := err_excludes_value out in
+      if v =? 0 then verdict true s else if v =? 1 then verdict false s else v
   | (Op_dt_set | Op_time_set | Op_date_set), _ =>
-      let v := check_C09 c in if v =? 0 then verdict true (err_excludes_value out && negb (out_is_panic out)) else v
+      (* a correspondence mismatch (1) must not hide a failure of this property's own oracle *)
+      let v := check_C09 c in let s := err_excludes_value out && negb (out_is_panic out) in
+      if v =? 0 then verdict true s else if v =? 1 then verdict false s else v
   | _, _ => V_MALFORMED
   end.
